@@ -123,7 +123,7 @@ func (d *OTLPDecoder) writeAttrValue(key string, val any, prefix string, res *ma
 		(*res)[prefix+key] = fmt.Sprintf("%d", val.(*v11.AnyValue_IntValue).IntValue)
 	case *v11.AnyValue_ArrayValue:
 		for i, _val := range val.(*v11.AnyValue_ArrayValue).ArrayValue.Values {
-			d.writeAttrValue(strconv.FormatInt(int64(i), 10), _val, prefix+key+".", res)
+			d.writeAttrValue(strconv.FormatInt(int64(i), 10), _val.GetValue(), prefix+key+".", res)
 		}
 	case *v11.AnyValue_KvlistValue:
 		d.initAttributesMap(val.(*v11.AnyValue_KvlistValue).KvlistValue.Values, prefix+key+".", res)
